@@ -183,7 +183,7 @@ RULES = {
     "C05": ["C05:order"],
     "C06": ["C06:twice", "C06:registered-at-entry", "C06:starve", "C06:nonzero-timeout", "C06:sleep-with-task"],
     "C07": ["C07:return-with-objs", "C07:poll-without-objs", "C07:cb-outside-main", "C07:nested"],
-    "C15": ["C15:fault"],
+    "C15": ["C15:fault", "C15:method-selection"],
 }
 
 
